@@ -84,7 +84,15 @@ fn result_event(scn: &Value) -> Value {
         Ok(a) => a,
         Err(e) => return json!({"ev": "KResult", "outcome": "build_error", "msg": e, "routes": [], "n_accept_all": -1, "first_len": 0}),
     };
-    let r = alg.run_vertex_oriented(src, Some(dst), &query, &Direction::Forward, &b.si);
+    // edge-oriented queries: the alternatives are searched between the far ends of the two query edges and every
+    // returned route carries the origin edge in front and the destination edge at the end
+    let edge_mode = scn["orient"].as_str().unwrap_or("vertex") == "edge";
+    let r = if edge_mode {
+        alg.run_edge_oriented(routee_compass_core::model::network::EdgeId(ju(&scn["osrc"]) - 1),
+                              Some(routee_compass_core::model::network::EdgeId(ju(&scn["odst"]) - 1)), &query, &Direction::Forward, &b.si)
+    } else {
+        alg.run_vertex_oriented(src, Some(dst), &query, &Direction::Forward, &b.si)
+    };
     let (outcome, msg) = outcome_of(&r);
     let mut ev = json!({"ev": "KResult", "outcome": outcome, "msg": msg, "routes": [], "ntrees": 0, "n_accept_all": -1, "first_len": 0});
     if let Ok(res) = &r {
@@ -92,7 +100,7 @@ fn result_event(scn: &Value) -> Value {
         ev["ntrees"] = json!(res.trees.len());
         ev["first_len"] = json!(res.routes.first().map(|r| r.len()).unwrap_or(0));
         // the same query under the default 'accept all' setting
-        if scn["sim"]["type"] != "accept_all" && scn["kalg"] == "svp" {
+        if scn["sim"]["type"] != "accept_all" && scn["kalg"] == "svp" && !edge_mode {
             if let Ok(all) = ksp_alg(scn, &json!({"type": "accept_all"})).and_then(|a| a.run_vertex_oriented(src, Some(dst), &query, &Direction::Forward, &b.si).map_err(|e| e.to_string())) {
                 ev["n_accept_all"] = json!(all.routes.len());
             }
@@ -232,6 +240,26 @@ fn gen(r: &mut StdRng, maxv: usize) -> Value {
     s["sim"] = sim;
     // termination criterion of the alternatives loop: default, explicit exact, or the two conditional ones with values
     // below / at / above k (below: the criterion can never fire and only the final truncation keeps the count at k)
+    // a fifth of the queries are edge oriented: origin and destination edges that are not adjacent (the inner search then
+    // runs from the origin edge's end vertex to the destination edge's start vertex)
+    s["orient"] = json!("vertex");
+    s["osrc"] = json!(0);
+    s["odst"] = json!(0);
+    if r.gen_bool(0.2) {
+        let es = s["E"].as_array().unwrap().clone();
+        let pairs: Vec<(usize, usize)> = (0..es.len())
+            .flat_map(|a| (0..es.len()).map(move |b| (a, b)))
+            .filter(|(a, b)| a != b && es[*a][1] != es[*b][0])
+            .collect();
+        if !pairs.is_empty() {
+            let (a, b) = pairs[r.gen_range(0..pairs.len())];
+            s["orient"] = json!("edge");
+            s["osrc"] = json!(a + 1);
+            s["odst"] = json!(b + 1);
+            s["src"] = es[a][1].clone();
+            s["dst"] = es[b][0].clone();
+        }
+    }
     s["term"] = match r.gen_range(0..10) {
         0..=3 => json!({"type": "default", "n": 0}),
         4 => json!({"type": "exact", "explicit": true, "n": 0}),
